@@ -425,4 +425,14 @@ theorem C02_loops_generated (D : Desc) (s : St) :
     searchCommand D s = Gen.search_command D (s.chkUb (decide (s.index < D.commandsNum))) :=
   ⟨updateCommand_generated D s, searchCommand_generated D s⟩
 
+/-- the 2-bit lane arithmetic — which byte holds entry `i` (`i >> 2`), how its match state is
+extracted (`>> ((i % 4) << 1)`, `& 3`) and how a new one is merged in (`&= ~(3 << k)`, `|= (v & 3)
+<< k`) — is, in the model (`laneGet`, `laneSet`, index `i / 4`), the natural-number reading of the
+shifts and masks regenerated from `get_cmd_state` / `set_cmd_state` of the source (translator item
+T15), for every stored byte, every position and every state value -/
+theorem C02_lane_bits_generated (b i v : Nat) (hb : b < 256) :
+    laneGet b i = Gen.get_cmd_state_bits b i ∧ laneSet b i v = Gen.set_cmd_state_bits b i v ∧
+    i / 4 = Gen.get_cmd_state_index i ∧ i / 4 = Gen.set_cmd_state_index i :=
+  ⟨laneGet_generated b i hb, laneSet_generated b i v hb, (lane_index_generated i).1, (lane_index_generated i).2⟩
+
 end Cat
